@@ -263,7 +263,9 @@ def _run_algebra(spec, ctx):
         ctx.violation("len", feat + "|before-call", f"len(sampler)={l0}, a parameter-free call returns {exp_len} rows")
     rnd = _has_random(e)
     torch.manual_seed(spec["rng"])
-    with ctx.lib("reference", feature=feat + "|single-factor-calls"):
+    # the reference makes one library call per (base sampler, parameter row): give the block a
+    # budget proportional to that number instead of the single-call budget
+    with ctx.lib("reference", feature=feat + "|single-factor-calls", budget_calls=400000):
         X = _ref(e, params)
     first = None
     for call in range(spec["calls"]):
@@ -390,3 +392,7 @@ def run_case(spec, ctx):
     if spec.get("case") == "algebra":
         return _run_algebra(spec, ctx)
     return _run_scenario(spec, ctx)
+
+
+def extra_cases(tier, seed):
+    return [dict(c, case="scenario") for c in sampling.pinned_scenarios(seed)]
